@@ -15,6 +15,8 @@
 (*   leak  : after  = ApplySeq(before, post)       on MK; no other key     *)
 (*           changes except the own steps' extra footprint                 *)
 (*                                                 -> finding "leak"       *)
+(*           and the subshell's process runs no trap action it did not     *)
+(*           install itself (ch[j].probes, oprobes) -> finding "entry"     *)
 (*   end   : end    = ApplySeq(entry, child steps) on MK (anti-vacuity:    *)
 (*           the mutation did happen in the child) -> "end"    (tool)      *)
 (*   drift : init = InitMap, before = ApplySeq(InitMap, pre) on MK         *)
@@ -75,7 +77,7 @@ Verdict(r) ==
          IF r.outcome # "completed" \/ r.miss # <<>> \/ Len(r.ch) # nch
          THEN {<<"abnormal", "outcome", "completed", r.outcome>>} ELSE {}
       drift0 == {<<"drift", k, InitMap[k], Vinit(k)>> : k \in {x \in MK : Vinit(x) # InitMap[x]}}
-      Mb == ApplySeq(InitMap, sc.pre, "pre")
+      Mb == EnterCtx(ApplySeq(InitMap, sc.pre, "pre"), sc.ctx)
       drift1 == {<<"drift", k, Mb[k], Vbefore(k)>> : k \in BadKeys(Mb, InitMap, Vbefore, r.d_before, RefInit)}
       EntryBad(j) ==
          LET Me == ForkImage(Ob, roles[j])
@@ -91,6 +93,17 @@ Verdict(r) ==
              tainted == {t[2] : t \in EntryBad(j)}
          IN  {<<"end", k, Mend[k], V(k)>> :
                  k \in BadKeys(Mend, Oe, V, r.ch[j].d_end, RefBefore \cup {Oe[k] : k \in FdKeys}) \ tainted}
+      (* behaviour: every trap action (`probe <tag>`) run by the subshell's   *)
+      (* process is one the subshell installed itself; processes that are    *)
+      (* neither the parent nor a subshell of the scenario (grandchildren)   *)
+      (* run none                                                            *)
+      ForeignRuns(j) ==
+         {<<"entry", "trapaction:" \o r.ch[j].probes[i], "not run in the subshell", "run by the subshell">> :
+             i \in {x \in 1..Len(r.ch[j].probes) :
+                       ("cmd:probe " \o r.ch[j].probes[x]) \notin OwnActs(sc.ch[j])}}
+      otherRuns ==
+         {<<"entry", "trapaction:" \o r.oprobes[i], "not run", "run by a descendant of the subshell">> :
+             i \in 1..Len(r.oprobes)}
       Ma == ApplySeq(Ob, sc.post, "post")
       extra == UNION {ExtraFootprint(sc.post[i]) : i \in 1..Len(sc.post)}
       leak == {<<"leak", k, Ma[k], Vafter(k)>> : k \in BadKeys(Ma, Ob, Vafter, r.d_after, RefBefore)}
@@ -102,6 +115,7 @@ Verdict(r) ==
   IN IF abnormal # {} THEN abnormal
      ELSE drift0 \cup drift1 \cup leak \cup data
           \cup UNION {EntryBad(j) : j \in 1..nch} \cup UNION {EndBad(j) : j \in 1..nch}
+          \cup UNION {ForeignRuns(j) : j \in 1..nch} \cup otherRuns
 
 TraceInit == l = 1 /\ Init      \* the scenario machine's variables are idle here
 
